@@ -280,7 +280,29 @@ class SStr(ModelValue):
         return contains_char(self, sub)
 
     def m_rstrip(self, it, chars=None):
-        raise OutsideSubset("rstrip of a structured string")
+        # decided when the string ends with an atom / numeral that cannot hold any of the characters, or with a literal
+        # that does not end with one of them; anything else is outside the subset
+        if chars is None:
+            chars = ' \t\n\r\x0b\x0c'
+        if not isinstance(chars, str):
+            raise OutsideSubset("rstrip with structured characters")
+        segs = self.segs
+        if not segs:
+            return self
+        last = segs[-1]
+        if isinstance(last, Lit):
+            if last.text[-1] not in chars:
+                return self
+            stripped = last.text.rstrip(chars)
+            if stripped:
+                return simplify(SStr(segs[:-1] + [Lit(stripped)]))
+            return simplify(SStr(segs[:-1])).m_rstrip(it, chars) if len(segs) > 1 else ''
+        if isinstance(last, Num):
+            if not (set(chars) & set(DIGITS)):
+                return self
+        elif not any(self.may_contain(ch, last) for ch in chars):
+            return self
+        raise OutsideSubset("rstrip(%r) of %r is not determined" % (chars, self))
 
     def m_replace(self, it, old, new, *count):
         from .replace import replace_all
@@ -485,7 +507,20 @@ def _same_item(x, y):
 
 
 def _cancel_compare(A, B):
-    a, b = _items(A), _items(B)
+    return _cmp_items(_items(A), _items(B), A, B)
+
+
+def _starts_without_digit(item):
+    if item is None:
+        return True
+    if item[0] == 'c':
+        return item[1] not in DIGITS
+    if item[0] == 'a':
+        return item[1].first_not_digit or DIGITS <= item[1].excludes
+    return False
+
+
+def _cmp_items(a, b, A, B):
     while a and b and _same_item(a[0], b[0]):
         a, b = a[1:], b[1:]
     while a and b and _same_item(a[-1], b[-1]):
@@ -505,6 +540,69 @@ def _cancel_compare(A, B):
         if (nx is None and ny is None) or (nx and ny and nx[0] == 'c' and ny[0] == 'c' and nx[1] == ny[1]
                                            and nx[1] in x[1].excludes and nx[1] in y[1].excludes):
             return False
+    for p, q in ((a, b), (b, a)):
+        if p[0][0] == 'c' and p[0][1] in DIGITS and q[0][0] == 'n':
+            # a literal digit run against a canonical numeral, neither followed by a digit: equal iff the run is the
+            # canonical spelling of the numeral's value (a fork on the path) and the remainders are equal
+            j = 0
+            while j < len(p) and p[j][0] == 'c' and p[j][1] in DIGITS:
+                j += 1
+            run = ''.join(ch for _, ch in p[:j])
+            if _starts_without_digit(p[j] if j < len(p) else None) and _starts_without_digit(q[1] if len(q) > 1 else None):
+                if len(run) > 1 and run[0] == '0':
+                    return False            # a canonical numeral has no leading zero
+                from .values import _CURRENT
+                from .core import compare as _compare
+                ctx = _CURRENT[0]
+                if ctx is not None and getattr(ctx, 'mode', None) == 'sym':
+                    if not ctx.branch(_compare('==', q[0][1].n, int(run))):
+                        return False
+                    ra, rb = (p[j:], q[1:])
+                    if not ra and not rb:
+                        return True
+                    if not ra or not rb:
+                        return False
+                    return _cmp_items(ra, rb, A, B)
+    if x[0] == 'n' and y[0] == 'n':
+        # two canonical numerals start at the same position and neither is followed by a digit: the strings are equal iff
+        # the integers are equal (decided by a fork on the path) and the remainders are
+        def no_digit_follows(items):
+            if len(items) < 2:
+                return True
+            nxt = items[1]
+            if nxt[0] == 'c':
+                return nxt[1] not in DIGITS
+            if nxt[0] == 'a':
+                return nxt[1].first_not_digit or DIGITS <= nxt[1].excludes
+            return False
+        if no_digit_follows(a) and no_digit_follows(b):
+            from .values import _CURRENT
+            from .core import compare as _compare
+            ctx = _CURRENT[0]
+            if ctx is not None and getattr(ctx, 'mode', None) == 'sym':
+                if not ctx.branch(_compare('==', x[1].n, y[1].n)):
+                    return False
+                return equal(A, B)          # _same_num now sees the equality on the path
+    if x[0] == 'a' and y[0] == 'a' and x[1] is not y[1]:
+        # two different atoms start at the same position and end at the same delimiter (a character neither can hold) or
+        # at the end of both strings: the strings are equal iff the atoms are equal and the remainders are -- the atoms'
+        # relation is decided by FORKING (recorded on the path, symmetric), never assumed
+        nx = a[1] if len(a) > 1 else None
+        ny = b[1] if len(b) > 1 else None
+        if (nx is None and ny is None) or (nx and ny and nx[0] == 'c' and ny[0] == 'c' and nx[1] == ny[1]
+                                           and nx[1] in x[1].excludes and nx[1] in y[1].excludes):
+            from .values import _CURRENT
+            ctx = _CURRENT[0]
+            if ctx is not None and getattr(ctx, 'mode', None) == 'sym':
+                from . import replace as _replace
+
+                class _It:
+                    pass
+                shim = _It()
+                shim.ctx = ctx
+                if _replace.refine_equal(shim, x[1], y[1]) == 0:
+                    return False
+                return equal(A, B)          # the atoms are unified now: compare again
     return None
 
 
